@@ -307,9 +307,10 @@ class Grammar:
 
 
 # -------------------------------------------------------------------- binders / rendering
-def binder_info(term):
+def binder_info(term, nctx=0):
     """Returns (nbinders, refs) where refs is a list of (binder_id, [intervening binder ids])
-    in traversal order.  Binder ids are assigned in render order."""
+    in traversal order.  Binder ids are assigned in render order.  For open terms the nctx context
+    variables are the pseudo binders -1 (outermost) .. -nctx (innermost)."""
     counter = [0]
     refs = []
 
@@ -354,7 +355,7 @@ def binder_info(term):
                 if isinstance(c, tuple) and c and isinstance(c[0], str) and c[0] in _TAGS:
                     walk(c, stack)
 
-    walk(term, [])
+    walk(term, [-(i + 1) for i in range(nctx)])
     return counter[0], refs
 
 
@@ -362,21 +363,28 @@ _TAGS = {"ds", "var", "attr", "meth", "const", "bin", "neg", "not", "cmp", "bool
          "count", "first", "app", "tup", "lst", "dic", "idx", "key", "dattr", "idxv", "idxe", "app2", "keyv"}
 
 
-def namings(term, pool):
+def namings(term, pool, ctx_names=()):
     """Every assignment of pool names to binders under which each reference still reaches its
-    binder (no intervening binder of the same name)."""
-    nb, refs = binder_info(term)
+    binder (no intervening binder of the same name).  ctx_names: fixed names of the context
+    variables of an open term, outermost first."""
+    nb, refs = binder_info(term, len(ctx_names))
     cons = set()
     for b, inter in refs:
         for i in inter:
-            cons.add((b, i))
+            if i >= 0:
+                cons.add((b, i))
+
+    def nm(names, b):
+        return names[b] if b >= 0 else ctx_names[-b - 1]
+
     for names in itertools.product(pool, repeat=nb):
-        if all(names[b] != names[i] for b, i in cons):
+        if all(nm(names, b) != names[i] for b, i in cons):
             yield names
 
 
-def render(term, names):
-    """Source text of a term under a naming (tuple of names, in binder order)."""
+def render(term, names, ctx_names=()):
+    """Source text of a term under a naming (tuple of names, in binder order); ctx_names are the
+    names of an open term's context variables, outermost first."""
     counter = [0]
 
     def r(t, stack):
@@ -462,7 +470,7 @@ def render(term, names):
             return f"{r(t[1], stack)}[{r(t[2], stack)}]"
         raise ValueError(tag)
 
-    return r(term, [])
+    return r(term, list(ctx_names))
 
 
 def _meth_params(name):
